@@ -99,6 +99,9 @@ def gen_case(rng: Rng, i: int, tier: str):
         # EncodedHeader record rewritten to declare hundreds of folders over that one packed stream
         return {"base": {"bigheader": {"members": 1500, "namelen": 150}}, "kind": "many_header_folders", "mseed": r.randrange(1 << 30),
                 "seq": [{"op": "getnames"}], "open": r.pick(["stream", "path"]), "chunk": 128000000, "folders": r2.pick([700, 1300])}
+    if r2.chance(0.06):
+        # the record that describes the packed header (kEncodedHeader StreamsInfo) is mutated like the header itself
+        kind = "outer_structure"
     if r2.chance(0.03):
         # directed: the start header itself declares a next header (size / offset) far beyond the file, its CRC re-sealed
         kind = "sigheader"
@@ -250,6 +253,31 @@ def make_input(case):
         raw = M.serialise(toks)
         data = W.reseal(img, raw, keep_upto=32 + (a.data_end or 0) if a.header_kind == "encoded" else None)
         entered = True
+    elif kind == "outer_structure" and len(img) >= 32:
+        import zlib as _z
+
+        nofs, nsize, _c = struct.unpack("<QQI", img[12:32])
+        outer = img[32 + nofs: 32 + nofs + nsize]
+        if outer[:1] == b"\x17":
+            toks = M.tokenize(outer)
+            if r.chance(0.5):
+                # the packed-header size / unpack size / position, directed
+                cands = [k for k, t in enumerate(toks) if t.kind == "num" and t.label in ("packsize", "unpacksize", "packpos", "numpackstreams", "numfolders")]
+                if cands:
+                    k = r.pick(cands)
+                    old_v = toks[k].val
+                    toks[k].val = r.pick([0, 1, max(old_v // 2, 1), old_v - 1, old_v + 1, (1 << 14) - 1, 1 << 32, 1 << 63])
+                    desc = ["outer %s/%s %r->%r" % (toks[k].section, toks[k].label, old_v, toks[k].val)]
+            else:
+                toks, desc = M.mutate(toks, r)
+                desc = ["outer " + x for x in desc]
+            raw = M.serialise(toks)
+            start = struct.pack("<QQI", nofs, len(raw), _z.crc32(raw) & 0xFFFFFFFF)
+            data = img[:8] + struct.pack("<I", _z.crc32(start) & 0xFFFFFFFF) + start + img[32:32 + nofs] + raw
+            entered = True
+        else:
+            data = img
+            desc = ["pristine (header is not encoded)"]
     elif kind == "sigheader" and len(img) >= 32:
         import zlib as _z
 
